@@ -137,3 +137,17 @@ pub proof fn lemma_un_rr_pf(p: Seq<u8>, off: int, u: Seq<u8>, b: int)
         lemma_be16_bytes(p[ne + 8], p[ne + 9]);
     }
 }
+
+// record k of a run of pointer-free records is a pointer-free record (and sits at rec_start)
+pub proof fn lemma_pf_at(v: Seq<u8>, s: int, n: int, k: int)
+    requires pf_rrs(v, s, n), 0 <= k < n, 0 <= s <= v.len()
+    ensures pf_rr(v, rec_start(v, s, k))
+    decreases k
+{
+    lemma_pf_rec(v, s);
+    if k > 0 { lemma_pf_at(v, pf_end(v, s), n - 1, k - 1); }
+}
+pub proof fn lemma_pf_rd(v: Seq<u8>, off: int)
+    requires pf_rr(v, off)
+    ensures pf_rd_ok(v, pcs_end(v, off).unwrap()), pcs_end(v, off).is_some()
+{ }
